@@ -17,6 +17,15 @@
     * R8 (new): the opcode is executable by the graph machine under the same name and neither
       `vloads` nor `vstores` (`genR` renames those to `loads`/`stores`, whose meaning differs for
       slots ≥ 256; they are the access path of by-reference parameters — stage 3).
+      With `RK.dyn` they are admitted (stage 3): the generated `loads` / `stores` may then fail their
+      range check — unless
+    * R9 (`RK.strict`, the by-reference discipline; stage 3 without that caveat): `vloads` / `vstores`
+      only dereference a by-reference parameter of the routine they occur in (`vloads [load v]`,
+      `vstores [load v, e]`); nobody stores directly into a by-reference parameter slot; what a call
+      passes for a by-reference parameter is `index s` (`s < 256` no parameter slot of any routine)
+      or the caller's own by-reference parameter; the generic `loads` / `stores` are excluded.
+      Then every by-reference parameter cell of an active routine holds a slot number `< 256`
+      (`Proofs/C02GenValid.lean`).
     * `substring/extract/suffix`, `wideRatio`: as in `wt` / excluded.
 
   `inFragmentR p` is the program-level predicate; `stageOf p fp` says which stage of the proof plan
@@ -42,6 +51,11 @@ structure RK where
   okCalls : Option (List Nat) := none   -- `some l`: only the routines of `l` may be called
   dyn : Bool := false       -- `vloads` / `vstores` (slots addressed by a run-time value) are allowed;
                             -- the machine may then fail the range check of `loads` / `stores`
+  strict : Bool := false    -- the by-reference discipline R9 is enforced (then that failure is impossible)
+  ref : List Nat := []      -- the by-reference parameter slots of this routine
+  refAll : List Nat := []   -- all by-reference parameter slots of the program (nobody stores into them)
+  parAll : List Nat := []   -- all parameter slots of the program (no reference to one of them is created)
+  kinds : List (Nat × List Bool) := []   -- routine id ↦ which of its parameters are by reference
   deriving Repr, Inhabited
 
 /-- signature of the opcodes of the fragment: those of `primSig` that do not address scratch
@@ -52,8 +66,36 @@ def primSigR (op : String) : Option (Nat × Nat) :=
 /-- with ignored slots, the run-time addressed `loads` / `stores` are excluded as well -/
 def primSigK (K : RK) (op : String) : Option (Nat × Nat) :=
   if K.ign.isEmpty then
-    (if K.dyn && (op == "vloads" || op == "vstores") then primSig op else primSigR op)
+    (if K.dyn && (op == "vloads" || op == "vstores") then primSig op
+     else if K.strict then (if Models.Optimizer.framedOps.contains op then primSig op else none)
+     else primSigR op)
   else if Models.Optimizer.framedOps.contains op then primSig op else none
+
+/-- R9 (by-reference discipline), addresses: `vloads` / `vstores` dereference a by-reference
+    parameter of the routine they occur in -/
+def dynShapeOk (K : RK) (op : String) (args : List Expr) : Bool :=
+  !(K.strict && (op == "vloads" || op == "vstores")) ||
+  (match args with
+   | .load v :: _ => K.ref.contains v
+   | _ => false)
+
+/-- R9, arguments: what is passed for a by-reference parameter is the slot number of a variable
+    that is no parameter slot, or the routine's own by-reference parameter (forwarding) -/
+def refArgOk (K : RK) : Expr → Bool
+  | .index s => decide (s < 256) && !K.parAll.contains s
+  | .load v => K.ref.contains v
+  | _ => false
+
+def refArgsOk (K : RK) : List Bool → List Expr → Bool
+  | true :: ks, e :: es => refArgOk K e && refArgsOk K ks es
+  | false :: ks, _ :: es => refArgsOk K ks es
+  | _, _ => true
+
+def callShapeOk (K : RK) (f : Nat) (args : List Expr) : Bool :=
+  !K.strict ||
+  (match K.kinds.lookup f with
+   | some ks => refArgsOk K ks args
+   | none => false)
 
 mutual
   /-- `wtR K bc rc n e`: `e` is in the fragment, yields exactly `n` values on normal completion,
@@ -66,13 +108,14 @@ mutual
     | .prim op _ args =>
       (match primSigK K op with
        | some (k, p) => args.length == k && p == n
-       | none => false) && wtRArgs K args
-    | .store v e => n == 0 && decide (v < 256) && !K.ign.contains v && wtR K false false 1 e
+       | none => false) && wtRArgs K args && dynShapeOk K op args
+    | .store v e => n == 0 && decide (v < 256) && !K.ign.contains v && wtR K false false 1 e && !K.refAll.contains v
     | .multi op _ args outs =>
       n == 0 &&
       (match primSigK { K with dyn := false } op with
        | some (k, p) => args.length == k && p == outs.length
-       | none => false) && outs.all (fun v => decide (v < 256) && !K.ign.contains v) && wtRArgs K args
+       | none => false) && outs.all (fun v => decide (v < 256) && !K.ign.contains v) && wtRArgs K args &&
+      outs.all (fun v => !K.refAll.contains v)
     | .seq es => wtRSeq K bc rc n es
     | .ite c t none => n == 0 && wtR K false false 1 c && wtR K bc rc 0 t
     | .ite c t (some e) => wtR K false false 1 c && wtR K bc rc n t && wtR K bc rc n e
@@ -92,7 +135,7 @@ mutual
        | none => false) &&
       (match K.okCalls with
        | some l => l.contains f
-       | none => true) && wtRArgs K args
+       | none => true) && wtRArgs K args && callShapeOk K f args
     | .wideRatio _ _ => false
     | .substring s a b => n == 1 && wtR K false false 1 s && wtR K false false 1 a && wtR K false false 1 b
     | .extract s a l => n == 1 && wtR K false false 1 s && wtR K false false 1 a && wtR K false false 1 l
@@ -194,14 +237,27 @@ def okCallsOf (p : Prog) (sd : SubDef) : List Nat :=
     sd.reenters.contains g ||
     (closedSet p (reachSet p g) && (reachSet p g).contains g && !(reachSet p g).contains sd.id))
 
-/-- typing context of the main routine / of a subroutine -/
-def mainK (fp : Bool) (p : Prog) (dyn : Bool := false) : RK :=
-  { callees := calleesOf p, rv := true, ign := ignOf fp p, dyn := dyn }
+/-- the by-reference / by-value parameter slots of a routine -/
+def refSlots (sd : SubDef) : List Nat := (sd.params.filter (fun kv => kv.1 == .ref)).map (·.2)
+def valSlots (sd : SubDef) : List Nat := (sd.params.filter (fun kv => kv.1 == .val)).map (·.2)
+def allRefSlots (p : Prog) : List Nat := p.subs.flatMap refSlots
+/-- routine id ↦ which parameters are by reference -/
+def kindsOf (p : Prog) : List (Nat × List Bool) := p.subs.map (fun sd => (sd.id, sd.params.map (fun kv => kv.1 == .ref)))
 
-def subK (fp : Bool) (p : Prog) (sd : SubDef) (dyn : Bool := false) : RK :=
+/-- typing context of the main routine / of a subroutine -/
+def mainK (fp : Bool) (p : Prog) (dyn : Bool := false) (strict : Bool := false) : RK :=
+  if strict && !fp then
+    { callees := calleesOf p, rv := true, dyn := dyn, strict := true, refAll := allRefSlots p,
+      parAll := allParamSlots p, kinds := kindsOf p, okCalls := some (callsOf p.main) }
+  else { callees := calleesOf p, rv := true, ign := ignOf fp p, dyn := dyn }
+
+def subK (fp : Bool) (p : Prog) (sd : SubDef) (dyn : Bool := false) (strict : Bool := false) : RK :=
   if fp then
     { callees := calleesOf p, rv := sd.hasRet, ign := allParamSlots p, own := sd.params.map (·.2),
       okCalls := some (okCallsOf p sd), dyn := dyn }
+  else if strict then
+    { callees := calleesOf p, rv := sd.hasRet, dyn := dyn, strict := true, ref := refSlots sd,
+      refAll := allRefSlots p, parAll := allParamSlots p, kinds := kindsOf p, okCalls := some (callsOf sd.body) }
   else { callees := calleesOf p, rv := sd.hasRet, dyn := dyn }
 
 /-- the slots the generated code spills around a re-entrant call -/
@@ -214,24 +270,25 @@ def spillSlotsC (fp : Bool) (sd : SubDef) : List Nat := Check.sortNat (Check.spi
     proved about `sortNat ∘ eraseDups ∘ filter`); under the frame-pointer convention the
     parameters are among the `locals` (so that the source semantics restores them after a
     re-entrant call) -/
-def subOkC (fp : Bool) (p : Prog) (sd : SubDef) (dyn : Bool := false) : Bool :=
-  wtR (subK fp p sd dyn) false true (if sd.hasRet then 1 else 0) sd.body &&
+def subOkC (fp : Bool) (p : Prog) (sd : SubDef) (dyn : Bool := false) (strict : Bool := false) : Bool :=
+  wtR (subK fp p sd dyn strict) false true (if sd.hasRet then 1 else 0) sd.body &&
   sd.params.all (fun kv => (kv.1 == .val || !fp) && (fp || decide (kv.2 < 256))) &&
   nodupB (sd.params.map (·.2)) &&
   sd.locals.all (fun v => (ignOf fp p).contains v || decide (v < 256)) &&
   nodupB (spillSlotsC fp sd) &&
   (spillSlotsC fp sd).all (fun x => sd.locals.contains x && !(ignOf fp p).contains x) &&
   sd.locals.all (fun x => (ignOf fp p).contains x || (spillSlotsC fp sd).contains x) &&
-  (!fp || sd.params.all (fun kv => sd.locals.contains kv.2))
+  (!fp || sd.params.all (fun kv => sd.locals.contains kv.2)) &&
+  (!strict || (valSlots sd).all (fun v => !(allRefSlots p).contains v))
 
-def mainOkC (fp : Bool) (p : Prog) (dyn : Bool := false) : Bool :=
-  wtR (mainK fp p dyn) false true 0 p.main || wtR (mainK fp p dyn) false true 1 p.main
+def mainOkC (fp : Bool) (p : Prog) (dyn : Bool := false) (strict : Bool := false) : Bool :=
+  wtR (mainK fp p dyn strict) false true 0 p.main || wtR (mainK fp p dyn strict) false true 1 p.main
 
 /-- **The fragment of programs** of `genProg_correct` (by-value parameters; recursion allowed);
     `fp = false`: scratch-slot convention, `fp = true`: frame-pointer convention (then the
     parameter slots of all routines are pairwise distinct) -/
-def inFragmentC (fp : Bool) (p : Prog) (dyn : Bool := false) : Bool :=
-  mainOkC fp p dyn && p.subs.all (fun sd => subOkC fp p sd dyn) && nodupB (p.subs.map (·.id)) &&
+def inFragmentC (fp : Bool) (p : Prog) (dyn : Bool := false) (strict : Bool := false) : Bool :=
+  mainOkC fp p dyn strict && p.subs.all (fun sd => subOkC fp p sd dyn strict) && nodupB (p.subs.map (·.id)) &&
   (!fp || nodupB (allParamSlots p))
 
 def subOk (p : Prog) (sd : SubDef) : Bool := subOkC false p sd
